@@ -695,6 +695,21 @@ def run_check(check: Check, tier: str, seed: int, workers: int = N_WORKERS, evid
         else:
             violations.append(v)
 
+    # 2b. thorough tier: determinism probe of this engine (same seeds on 16 workers and on 3 workers in reversed
+    #     order must give identical per-run fingerprints); a difference is a harness error, never a violation
+    selftest_note = None
+    if tier == "thorough" and not os.environ.get("VERIF_SKIP_SELFTEST"):
+        sub = seeds[: bud.get("selftest_seeds", 16)]
+        a = dict(run_seeds(check, tier, sub, workers, None, want_fps=True, chunk=1)["fps"])
+        b = dict(run_seeds(check, tier, list(reversed(sub)), 3, None, want_fps=True,
+                           chunk=max(1, len(sub) // 6))["fps"])
+        diff = [s_ for s_ in sub if a.get(s_) != b.get(s_)]
+        selftest_note = {"seeds": len(sub), "mismatches": len(diff)}
+        for s_ in diff[:3]:
+            harness_errors.append({"seed": s_, "error": f"non-deterministic run: fingerprint {a.get(s_)} on {workers} "
+                                                         f"workers, {b.get(s_)} on 3 workers"})
+    total["selftest"] = selftest_note
+
     for k, msg in sorted(printed_known.items()):
         print(f"KNOWN-FINDING: property={check.prop} key={k} {msg}", flush=True)
 
@@ -769,6 +784,7 @@ def write_evidence(check: Check, tier: str, seed: int, total: dict, directed_n: 
         "known_findings_printed": sorted(printed_known),
         "batch_fingerprint": total.get("batch_fingerprint"),
         "budget_exhausted": bool(total.get("budget_exhausted")),
+        "determinism_probe": total.get("selftest"),
         "harness_errors": len(harness_errors),
         "workers": N_WORKERS,
         "components": check.components,
